@@ -121,6 +121,19 @@ def r04_4(ctx):
     return r
 
 
+# the accepted spellings of "modifiers were written and are not empty" (None -> false in each) and of "the argument, or `void 0`"
+NONEMPTY_MODS = re.compile(r"modifiers\.map\(\|(\w+)\| !\1\.is_empty\(\)\)\.unwrap_or_default\(\)|modifiers\.is_some_and\(\|(\w+)\| !\2\.is_empty\(\)\)"
+                           r"|modifiers\.map_or\(False, \|(\w+)\| !\3\.is_empty\(\)\)|match modifiers \{Some\((\w+)\) => !\4\.is_empty\(\) \| None(\(\))? => False\}"
+                           r"|match modifiers \{None(\(\))? => False \| Some\((\w+)\) => !\7\.is_empty\(\)\}")
+VOID_FILL = re.compile(r"argument\.or_else\(\|\| Some\(VOID0\)\)|argument\.or\(Some\(VOID0\)\)|Some\(argument\.unwrap_or_else\(\|\| VOID0\)\)|Some\(argument\.unwrap_or\(VOID0\)\)")
+
+
+def _void0_texts(ctx):
+    """canonical text of `void 0` as written inline, and of the call of the helper that builds it (if its body is exactly that)"""
+    inline = re.compile(r"Unary\(UnaryExpr\{span: DUMMY_SP, op: Void, arg: Lit\(Num\(Number\{span: DUMMY_SP, value: '?0(\.0)?'?, raw: None\(?\)?\}\)\)\}\)")
+    return inline
+
+
 def r04_5(ctx):
     r = Rule("R04.5", "binding tuple [directive, value, arg?, modifiers?]: positional, so modifiers require an argument slot (`void 0` when none was written); modifiers are `{name: true}`",
              "modifiers pushed without an argument land in the argument slot")
@@ -148,7 +161,11 @@ def r04_5(ctx):
                     fs = {f["name"]: expr_str(f["e"]) for f in n["fields"]}
                     fld = "argument" if n["adt"].endswith("NormalDirective") else "transformed_argument"
                     a = fs.get(fld, "")
-                    ok = "modifiers.map(|modifiers| !modifiers.is_empty()).unwrap_or_default()" in a and "argument.or_else(|| Some(Unary(UnaryExpr{span: DUMMY_SP, op: Void" in a and a.rstrip().endswith("else argument")
+                    a = _void0_texts(ctx).sub("VOID0", a)
+                    und = C.role(ctx, "undefined_fn")
+                    if und is not None and _void0_texts(ctx).fullmatch(expr_str(und["body"])):
+                        a = a.replace("undefined()", "VOID0")
+                    ok = bool(NONEMPTY_MODS.search(a)) and bool(VOID_FILL.search(a)) and a.rstrip().endswith("else argument")
                     r.ob("%s.%s is `void 0` when modifiers exist without an argument" % (n["adt"].split("::")[-1], fld), ok, C.mloc(b, n), a[:150])
     mb = C.role(ctx, "modifiers_builder")
     if mb:
